@@ -455,29 +455,33 @@ Proof.
   eapply get_put_same; eassumption.
 Qed.
 
-Definition unmarked_at (m : impl) (x : nat) : Prop :=
-  forall g c, nth_error (g_slots (i_conns m)) x = Some (Some (g, c)) -> c_tbd c = false.
+Definition clear_at (p : conn -> bool) (m : impl) (x : nat) : Prop :=
+  forall g c, nth_error (g_slots (i_conns m)) x = Some (Some (g, c)) -> p c = false.
+Definition unmarked_at := clear_at c_tbd.
 
-(* the sweep of finishEmit: on a non-emitting Impl every visited position ends up without a marked entry *)
-Lemma sweep_ok idxs : forall w i m, winv w -> get_impl w i = Some m -> i_emitting m = false ->
-  exists m', get_impl (disconnect_where c_tbd w i idxs) i = Some m' /\ i_emitting m' = false /\
-             i_dde m' = i_dde m /\ i_owned m' = i_owned m /\ g_size (i_conns m') = g_size (i_conns m) /\
-             (forall x, In x idxs -> unmarked_at m' x) /\
-             (forall x, unmarked_at m x -> unmarked_at m' x).
+(* the sweeps of finishEmit / disconnectAll: on a non-emitting Impl every visited position ends up without an
+   entry satisfying p; positions keep being clear; nothing but the table of that Impl changes in it *)
+Lemma sweep_ok p idxs : forall w i m, winv w -> get_impl w i = Some m -> i_emitting m = false ->
+  exists m', get_impl (disconnect_where p w i idxs) i = Some m' /\ i_emitting m' = false /\
+             i_dde m' = i_dde m /\ i_owned m' = i_owned m /\ i_alive m' = i_alive m /\
+             g_size (i_conns m') = g_size (i_conns m) /\
+             (forall x, In x idxs -> clear_at p m' x) /\
+             (forall x, clear_at p m x -> clear_at p m' x).
 Proof.
   induction idxs as [|x r IH]; intros w i m Hw Hm Hem; cbn [disconnect_where].
   - exists m. repeat split; auto. intros y [].
   - rewrite Hm. pose proof (Hw _ _ Hm) as (Hwf & Hfr & Hmk & Hal).
     destruct (g_indexAt (i_conns m) x) as [k|] eqn:Hix.
     + destruct (indexAt_get _ _ _ Hwf Hix) as (Hkx & c & Hc). rewrite Hc.
-      destruct (c_tbd c) eqn:Ht.
+      destruct (p c) eqn:Ht.
       * pose proof (impl_disconnect_nonemitting w i k m c Hm Hem Hc) as Hm1.
         destruct (impl_disconnect_ok w i k Hw) as [Hw1 _].
         destruct (erase_spec _ k Hwf) as (_ & _ & Hsz & _ & Hoth & Hat).
-        destruct (IH _ i _ Hw1 Hm1 Hem) as (m' & Hg & He & Hd & Ho & Hs & Hin & Hpres).
+        destruct (IH _ i _ Hw1 Hm1 Hem) as (m' & Hg & He & Hd & Ho & Hl & Hs & Hin & Hpres).
         exists m'. split; [assumption|]. split; [assumption|]. split; [assumption|]. split; [assumption|].
+        split; [assumption|].
         split; [cbn [i_conns impl_with_conns] in Hs; congruence|].
-        assert (Hx1 : unmarked_at (impl_with_conns m (g_erase (i_conns m) k)) x).
+        assert (Hx1 : clear_at p (impl_with_conns m (g_erase (i_conns m) k)) x).
         { intros g c' Hs'. cbn [i_conns impl_with_conns] in Hs'. rewrite <- Hkx in Hs'.
           rewrite Hat in Hs' by congruence. discriminate. }
         split.
@@ -486,11 +490,11 @@ Proof.
            destruct (Nat.eq_dec y (gi_index k)) as [->|Hne].
            ++ rewrite Hat in Hs' by congruence. discriminate.
            ++ rewrite Hoth in Hs' by assumption. eapply Hy; eassumption.
-      * destruct (IH _ i _ Hw Hm Hem) as (m' & Hg & He & Hd & Ho & Hs & Hin & Hpres).
+      * destruct (IH _ i _ Hw Hm Hem) as (m' & Hg & He & Hd & Ho & Hl & Hs & Hin & Hpres).
         exists m'. repeat (split; [assumption|]). split; [|assumption].
         intros y [<-|Hy]; [|apply Hin; assumption]. apply Hpres.
         intros g c' Hs'. apply get_slot in Hc. rewrite Hkx in Hc. rewrite Hc in Hs'. inversion Hs'; subst; assumption.
-    + destruct (IH _ i _ Hw Hm Hem) as (m' & Hg & He & Hd & Ho & Hs & Hin & Hpres).
+    + destruct (IH _ i _ Hw Hm Hem) as (m' & Hg & He & Hd & Ho & Hl & Hs & Hin & Hpres).
       exists m'. repeat (split; [assumption|]). split; [|assumption].
       intros y [<-|Hy]; [|apply Hin; assumption]. apply Hpres.
       intros g c' Hs'.
@@ -519,7 +523,7 @@ Proof.
   { eapply wle_on_trans; [exact L1|]. eapply wle_on_weaken; [| | |exact L2]; unfold all; auto. }
   assert (H3 : exists m2, get_impl w2 i = Some m2 /\ forall k c, g_get (i_conns m2) k = Some c -> c_tbd c = false).
   { unfold w2. destruct (i_dde m) eqn:Hd.
-    - destruct (sweep_ok (seq 0 n) w1 i m1 Hw1 Hg1 eq_refl) as (m2 & Hg2 & _ & _ & _ & Hs & Hin & _).
+    - destruct (sweep_ok c_tbd (seq 0 n) w1 i m1 Hw1 Hg1 eq_refl) as (m2 & Hg2 & _ & _ & _ & _ & Hs & Hin & _).
       exists m2; split; [assumption|]. intros k c Hc.
       apply get_slot in Hc. eapply (Hin (gi_index k)); [|exact Hc].
       apply in_seq. split; [lia|]. cbn.
